@@ -413,6 +413,7 @@ package state
 //@ results err
 //@ ensures[absent-noop] old(T_sessions(sessionID)) == nil ==> err == nil && (forall k string :: T_kvs(k) == old(T_kvs(k))) && (forall id string :: T_sessions(id) == old(T_sessions(id))) && (forall t string :: T_index(t) == old(T_index(t)))
 //@ ensures[session-gone] err == nil ==> T_sessions(sessionID) == nil
+//@ ensures[no-session-created] forall id string :: old(T_sessions(id)) == nil ==> T_sessions(id) == nil
 //@ ensures[locks-gone] err == nil && old(T_sessions(sessionID)) != nil ==> noLocksOf(sessionID)
 //@ ensures[check-links-gone] err == nil && old(T_sessions(sessionID)) != nil ==> noCheckLinksOf(sessionID)
 //@ ensures[queries-gone] err == nil && old(T_sessions(sessionID)) != nil ==> noQueriesOf(sessionID)
@@ -557,9 +558,43 @@ package state
 
 //@ file catalog.go
 
-//@ func Store.ensureCheckTxn
+// ---- C04/C07: writing a health check. Parents must exist; a check that is (or defaults to) critical
+// invalidates every session bound to it in the same transaction.
+//@ pure linkOfCheck(m *sessionCheck, node string, check string) bool = m != nil && strLower(m.Node) == strLower(node) && strLower(string(m.CheckID.ID)) == strLower(check)
+
+//@ func checkSessionsTxn
+//@ props C04
+//@ results sessions, err
+//@ requires hc != nil
+//@ ensures[only-links-of-this-check] err == nil ==> forall j int :: 0 <= j && j < len(sessions) ==> linkOfCheck(sessions[j], hc.Node, string(hc.CheckID))
+//@ ensures[every-link-listed] err == nil ==> forall k string :: linkOfCheck(T_session_checks(k), hc.Node, string(hc.CheckID)) ==> exists j int :: 0 <= j && j < len(sessions) && sessions[j] == T_session_checks(k)
+//@ modifies nothing
+//@ loop 1 invariant[pos] 0 <= itPos(mappings) && itPos(mappings) <= itLen(mappings)
+//@ loop 1 invariant[cursor] (mapping != nil ==> itPos(mappings) >= 1 && mapping == itElem(mappings, itPos(mappings)-1)) && (mapping == nil ==> itPos(mappings) == itLen(mappings))
+//@ loop 1 invariant[collected] len(sessions) == ite(mapping != nil, itPos(mappings) - 1, itPos(mappings)) && forall j int :: 0 <= j && j < len(sessions) ==> sessions[j] == itElem(mappings, j).(*sessionCheck)
+
+// index bumps of all services of a node (derived per-service indexes; not part of the parent/cascade claims)
+//@ func updateAllServiceIndexesOfNode
 //@ trusted
+//@ results err
+//@ modifies T.index
+
+//@ func Store.ensureCheckTxn
+//@ props C04
 //@ results rerr
+//@ requires hc != nil
+//@ ensures[node-must-exist] rerr == nil ==> old(nodeAt(hc.Node, hc.PeerName)) != nil
+//@ ensures[service-must-exist] rerr == nil && hc.ServiceID != "" ==> old(T_services(NodeServiceQuery{Node: hc.Node, Service: hc.ServiceID, PeerName: hc.PeerName})) != nil
+//@ ensures[missing-node-is-an-error] old(nodeAt(hc.Node, hc.PeerName)) == nil ==> rerr != nil
+//@ ensures[check-stored] rerr == nil ==> checkAt(hc.Node, string(hc.CheckID), hc.PeerName) != nil
+//@ ensures[status-defaults-to-critical] rerr == nil ==> hc.Status != ""
+//@ ensures[parents-untouched] (forall k string :: T_nodes(k) == old(T_nodes(k))) && (forall k string :: T_services(k) == old(T_services(k)))
+//@ ensures[critical-check-invalidates-sessions] rerr == nil && hc.Status == api.HealthCritical && hc.PeerName == "" ==> forall k string :: old(linkOfCheck(T_session_checks(k), hc.Node, string(hc.CheckID))) ==> T_sessions(old(T_session_checks(k).Session)) == nil
+//@ ensures[no-session-created] forall id string :: old(T_sessions(id)) == nil ==> T_sessions(id) == nil
+//@ loop 1 invariant[still-to-delete] forall k string :: old(linkOfCheck(T_session_checks(k), hc.Node, string(hc.CheckID))) && T_sessions(old(T_session_checks(k).Session)) != nil ==> exists j int :: range1_idx <= j && j < len(sessions) && sessions[j] == old(T_session_checks(k))
+//@ loop 1 invariant[no-session-created] forall id string :: old(T_sessions(id)) == nil ==> T_sessions(id) == nil
+//@ loop 1 invariant[parents-untouched] (forall k string :: T_nodes(k) == old(T_nodes(k))) && (forall k string :: T_services(k) == old(T_services(k)))
+//@ loop 1 invariant[node-present] old(nodeAt(hc.Node, hc.PeerName)) != nil && (hc.ServiceID != "" ==> old(T_services(NodeServiceQuery{Node: hc.Node, Service: hc.ServiceID, PeerName: hc.PeerName})) != nil)
 //@ func Store.deleteCheckTxn
 //@ trusted
 //@ results rerr
